@@ -21,6 +21,19 @@ def register(claim):
           "compiled with g++ over a 26-entry option lattice, with symbol uniqueness read from the compiled text.",
           "Partial: 'is a well-formed translation unit' is decided per run by g++ (no formal C++); linking is checked only for the C back-end; the fuel bound of the free-name search is not a theorem.",
           "Lean 4 proof (freshness invariant over signature sequences) + differential correspondence + g++ oracle", "DESIGN.md §5 C03")
+    claim("C06",
+          "Lean 4 theorems: for EVERY type built from named types, const, pointers, references, arrays and functions (any nesting, any parameter "
+          "lists) the token string produced by the model of the output_instance printers is derived by the ISO declarator grammar as a declaration of "
+          "exactly that type and name (c06_print_denotes, by mutual structural induction); unroll_type over the modifier list the bison productions "
+          "push equals the ISO meaning of the declarator whatever redundant parentheses were written (c06_unroll), hence parse-then-print denotes "
+          "the written type (c06_parse_print); unqualified lookup takes the innermost contributing scope and never invents an entity "
+          "(c06_lookup_*). The models are tied to the real parser/printer by running generated declarations (random parentheses, east/west const) "
+          "through parse_file and comparing text, and generated namespace/base/shadowing programs through interrogate against the findType model; "
+          "g++ judges every printed declaration, prototype, member type and typedef target with std::is_same / out-of-class definitions, also for "
+          "instantiated class templates; every parser-inc stub header g++ accepts must parse.",
+          "Partial: grammar unambiguity is assumed (ISO), bison acceptance and template substitution are explored per run, not proved; volatile, "
+          "member pointers, attributes, trailing return types are outside the model. Two known findings (class name + parenthesised declarator; volatile dropped).",
+          "Lean 4 proof (printer soundness w.r.t. the declarator grammar, unroll = ISO meaning) + differential correspondence + g++ oracle", "DESIGN.md §5 C06")
     claim("C20",
           "Lean 4 theorems: guarded accessors return the neutral value off-range and the entry in range; every lookup answers from the current maps "
           "for every sequence of requests/lookups/queries (cache invariant by induction over operations) and is sound/absent/exact; the unique-name "
